@@ -57,8 +57,87 @@ def related(rng, w):
     return x if 0 < x < 0x10000000 else w
 
 
+MUTS = ["sort", "rsort", "reverse", "pop", "pop0", "clear", "append", "extend", "set0", "delslice", "imul",
+        "insert"]
+
+
+def apply_mut(mut, lst):
+    """what a caller may do to a list it owns (in place; deterministic, shared by both sides of the comparison)"""
+    if mut == "sort":
+        lst.sort()
+    elif mut == "rsort":
+        lst.sort(reverse=True)
+    elif mut == "reverse":
+        lst.reverse()
+    elif mut == "pop":
+        if lst:
+            lst.pop()
+    elif mut == "pop0":
+        if lst:
+            lst.pop(0)
+    elif mut == "clear":
+        del lst[:]
+    elif mut == "append":
+        lst.append(77)
+    elif mut == "extend":
+        lst.extend([5, 300, 20000])
+    elif mut == "set0":
+        if lst:
+            lst[0] = (lst[0] + 1) % 0x80 or 1
+    elif mut == "delslice":
+        del lst[1:]
+    elif mut == "imul":
+        lst *= 2
+    elif mut == "insert":
+        lst.insert(len(lst) // 2, 1)
+    else:
+        raise ValueError(mut)
+
+
+def effective(mut, ws):
+    l = list(ws)
+    apply_mut(mut, l)
+    return l != list(ws)
+
+
+def pick_mut(rng, ws):
+    good = [m for m in MUTS if effective(m, ws)]
+    return rng.choice(good or MUTS)
+
+
+def gen_alias(rng, cmds):
+    """later-call / aliasing probes: every list a call hands out belongs to the caller, every list handed in stays
+    the caller's; the answers to later equal calls must not depend on what the caller did in between"""
+    pool = []
+    for _ in range(rng.randrange(2, 6)):
+        r = rng.random()
+        if pool and r < 0.45:
+            ws = list(rng.choice(pool))           # an equal list again (same code)
+        else:
+            ws = [rid(rng) for _ in range(rng.randrange(1, 9))]
+            if rng.random() < 0.5:
+                ws = [min(w, 0xFFFFFFF) for w in ws]
+            pool.append(ws)
+        r = rng.random()
+        if r < 0.4:
+            cmds.append(["decm", pick_mut(rng, ws)] + encode_ref(ws, None))
+        elif r < 0.55:
+            cmds.append(["dec"] + encode_ref(ws, None))
+        elif r < 0.75:
+            d = [max(1, w) for w in ws]
+            cmds.append(["wordsm", pick_mut(rng, d), rng.choice(["same", "twin", "both"])] + d)
+        elif r < 0.9:
+            cmds.append(["encm", pick_mut(rng, ws), rng.choice(["list", "list", "tuple", "iter"])] + ws)
+        else:
+            cmds.append(["enc"] + ws)
+
+
 def gen(rng, tier, idx):
     cmds = []
+    if rng.random() < 0.3:
+        gen_alias(rng, cmds)
+        if rng.random() < 0.5:
+            return {"session": "widcode", "cmds": cmds}
     for _ in range(rng.randrange(4, 12)):
         r = rng.random()
         if r < 0.3:
@@ -100,7 +179,7 @@ def encode_ref(ws, rng):
     """bytes for a `dec` command: produced by the harness' own encoder (chunks of 1..4 bytes), plus
     occasionally stray continuation bytes in front, which findall skips"""
     out = []
-    if rng.random() < 0.1:
+    if rng is not None and rng.random() < 0.1:
         out += [rng.randrange(0x80) for _ in range(rng.randrange(1, 3))]
     for w in ws:
         if w < 0x80:
@@ -114,15 +193,90 @@ def encode_ref(ws, rng):
     return out
 
 
-def impl_exec(hyp, cmd):
+def model_cmd(c):
+    """the probes are asked of the model as plain enc / dec of what the property says the answer is"""
+    if c[0] == "decm":
+        return ["dec"] + list(c[2:])
+    if c[0] == "wordsm":
+        return ["dec"] + encode_ref(list(c[3:]), None)
+    if c[0] == "encm":
+        l = list(c[3:])
+        if c[2] == "list":
+            apply_mut(c[1], l)            # the SAME list object, changed by its owner, is encoded again
+        return ["enc"] + l
+    return c
+
+
+def _codes(s):
+    return " ".join(str(ord(ch)) for ch in s)
+
+
+def impl_exec(hyp, cmd, held=None):
     from hypatia.text import widcode
     from hypatia.text.okapiindex import OkapiIndex
     op = cmd[0]
+    held = held if held is not None else []
+    try:
+        if op == "decm":
+            code = "".join(chr(b) for b in cmd[2:])
+            first = widcode.decode(code)
+            if type(first) is not list:
+                return "decode returned %s" % type(first).__name__
+            snap = list(first)
+            apply_mut(cmd[1], first)                    # the caller owns what it was handed
+            second = widcode.decode(code)
+            held.append((second, list(second), "decode"))
+            if second is first:
+                return "same-object-again " + " ".join(str(w) for w in second)
+            if second != snap:
+                return "changed-by-caller's-%s: " % cmd[1] + " ".join(str(w) for w in second)
+            return " ".join(str(w) for w in second)
+        if op == "wordsm":
+            d = list(cmd[3:])
+            idx = OkapiIndex(StubLexicon())
+            idx.index_doc(1, list(d))
+            idx.index_doc(2, list(d))                   # a second document with the same words: same code
+            got = idx.get_words(1 if cmd[2] != "twin" else 2)
+            snap = list(got)
+            apply_mut(cmd[1], got)
+            a, b = idx.get_words(1), idx.get_words(2)
+            held.append((a, list(a), "get_words"))
+            if cmd[2] == "both":
+                apply_mut(cmd[1], b)
+                b = idx.get_words(2)
+            if a != b or a != snap:
+                return "get_words(1)=%r get_words(2)=%r first=%r" % (a, b, snap)
+            # the index's own use of the decoded list: unindexing diffs against get_words
+            idx.unindex_doc(1)
+            idx.unindex_doc(2)
+            left = [w for w in set(d) if idx.search([w]) is not None and len(idx.search([w]))]
+            if left:
+                return "postings-left-after-unindex %r" % sorted(left)
+            return " ".join(str(w) for w in a)
+        if op == "encm":
+            ws = list(cmd[3:])
+            arg = ws if cmd[2] == "list" else tuple(ws) if cmd[2] == "tuple" else iter(ws)
+            s1 = widcode.encode(arg)
+            if type(s1) is not str:
+                return "encode returned %s" % type(s1).__name__
+            if ws != list(cmd[3:]):
+                return "encode modified its argument: %r" % (ws,)
+            if cmd[2] != "list":
+                return _codes(s1)
+            apply_mut(cmd[1], ws)                       # the caller changes ITS list, then encodes it again
+            s2 = widcode.encode(ws)
+            if widcode.encode(list(cmd[3:])) != s1:
+                return "encode of an equal fresh list differs: " + _codes(widcode.encode(list(cmd[3:])))
+            return _codes(s2)
+    except Exception as e:
+        return exc_name(e)
     try:
         if op == "enc":
             return " ".join(str(ord(c)) for c in widcode.encode(list(cmd[1:])))
         if op == "dec":
-            return " ".join(str(w) for w in widcode.decode("".join(chr(b) for b in cmd[1:])))
+            r = widcode.decode("".join(chr(b) for b in cmd[1:]))
+            held.append((r, list(r), "decode"))
+            return " ".join(str(w) for w in r)
         if op in ("find",):
             k = cmd.index("|")
             p, d = list(cmd[1:k]), list(cmd[k + 1:])
@@ -149,7 +303,19 @@ def impl_exec(hyp, cmd):
 
 
 def impl_run(hyp, case):
-    return [impl_exec(hyp, c) for c in case["cmds"]]
+    """every list handed out earlier in the session is kept and must still hold what it held (a later call that
+    refills a shared buffer, or a cache that hands the caller's list to the next caller, shows here)"""
+    held = []
+    outs = []
+    for c in case["cmds"]:
+        o = impl_exec(hyp, c, held)
+        for obj, snap, what in held:
+            if obj != snap:
+                o = "earlier-%s-result-changed-by-later-call was=%r now=%r" % (what, snap, obj)
+                del held[:]
+                break
+        outs.append(o)
+    return outs
 
 
 def codelen(w):
@@ -160,7 +326,7 @@ def nontrivial(case, outs):
     lens = set()
     for c in case["cmds"]:
         for t in c[1:]:
-            if isinstance(t, int) and c[0] in ("enc", "find"):
+            if isinstance(t, int) and c[0] in ("enc", "find", "encm", "wordsm"):
                 lens.add(codelen(t))
         if c[0] in ("digest", "rt"):
             return True
@@ -169,8 +335,22 @@ def nontrivial(case, outs):
 
 def features(case, outs):
     f = []
+    seen = {}
     for c, o in zip(case["cmds"], outs):
         f.append("op:" + c[0])
+        if c[0] in ("decm", "wordsm", "encm"):
+            f.append("alias:%s:%s" % (c[0], c[1]))
+            ids = tuple(c[2:] if c[0] == "decm" else c[3:]) if c[0] != "wordsm" else tuple(encode_ref(list(c[3:]), None))
+            if c[0] != "encm":
+                if ids in seen:
+                    f.append("alias:same-code-decoded-again-after-mutation")
+                seen[ids] = 1
+            if c[0] == "wordsm":
+                f.append("alias:wordsm:" + c[2])
+            if c[0] == "encm":
+                f.append("alias:encm:" + c[2])
+        elif c[0] == "dec" and tuple(c[1:]) in seen:
+            f.append("alias:same-code-decoded-again-after-mutation")
         if c[0] == "find":
             f.append("find:" + o)
         if o.startswith("err"):
